@@ -1454,7 +1454,10 @@ namespace igris
             if (first == last)
                 return;
 
-            reserve(igris::distance(first, last));
+            reserve_for_range(
+                first,
+                last,
+                typename igris::iterator_traits<I>::iterator_category());
             for (; first != last; first++)
             {
                 push_back(*first);
@@ -1792,6 +1795,20 @@ namespace igris
         // }
 
     protected:
+        // A range of forward (multi-pass) iterators can be measured before
+        // it is copied; a single-pass input range would be consumed by
+        // igris::distance and must simply be pushed.
+        template <class I, class O>
+        void reserve_for_range(I first, O last, igris::forward_iterator_tag)
+        {
+            reserve(igris::distance(first, last));
+        }
+
+        template <class I, class O>
+        void reserve_for_range(I, O, igris::input_iterator_tag)
+        {
+        }
+
         unsigned char changeBuffer(size_t sz)
         {
             size_t oldcapacity = m_capacity;
